@@ -65,7 +65,7 @@ func drawC03(rt *rapid.T) interface{} {
 	sc := &C03Scenario{}
 	sc.Mode = rapid.SampledFrom([]string{"wrapper-conc", "wrapper-seq", "core-seq", "core-seq", "clones", "clones"}).Draw(rt, "mode")
 	sc.Degree = rapid.SampledFrom([]int{2, 2, 3, 4, 8}).Draw(rt, "degree")
-	keyMax := rapid.SampledFrom([]int{6, 15, 40}).Draw(rt, "keymax")
+	keyMax := rapid.SampledFrom([]int{6, 15, 40, hx.Pick(40, 120)}).Draw(rt, "keymax")
 	nextP := 1
 	switch sc.Mode {
 	case "wrapper-conc":
@@ -75,10 +75,10 @@ func drawC03(rt *rapid.T) interface{} {
 		}
 		sc.Knobs = hx.DrawKnobs(rt, []int{100, 30, 10})
 	case "wrapper-seq":
-		sc.Tasks = [][]tOp{drawOps(rt, rapid.IntRange(1, 60).Draw(rt, "nops"), wrapperOps, &nextP, keyMax)}
+		sc.Tasks = [][]tOp{drawOps(rt, rapid.IntRange(1, hx.Pick(60, 200)).Draw(rt, "nops"), wrapperOps, &nextP, keyMax)}
 		sc.Knobs = hx.DrawKnobs(rt, []int{10})
 	case "core-seq":
-		sc.Tasks = [][]tOp{drawOps(rt, rapid.IntRange(1, 80).Draw(rt, "nops"), coreOps, &nextP, keyMax)}
+		sc.Tasks = [][]tOp{drawOps(rt, rapid.IntRange(1, hx.Pick(80, 300)).Draw(rt, "nops"), coreOps, &nextP, keyMax)}
 		sc.Knobs = hx.DrawKnobs(rt, []int{10})
 	default:
 		sc.Base = drawOps(rt, rapid.IntRange(0, 40).Draw(rt, "nbase"), []string{"insert", "insert", "insert", "delete"}, &nextP, keyMax)
@@ -88,7 +88,7 @@ func drawC03(rt *rapid.T) interface{} {
 			sc.Parent = append(sc.Parent, rapid.IntRange(0, i-1).Draw(rt, "parent"))
 		}
 		for i := 0; i < nt; i++ {
-			sc.Tasks = append(sc.Tasks, drawOps(rt, rapid.IntRange(1, 25).Draw(rt, "nops"), coreOps, &nextP, keyMax))
+			sc.Tasks = append(sc.Tasks, drawOps(rt, rapid.IntRange(1, hx.Pick(25, 60)).Draw(rt, "nops"), coreOps, &nextP, keyMax))
 		}
 		sc.Knobs = hx.DrawKnobs(rt, []int{300, 100, 30})
 	}
@@ -527,6 +527,7 @@ func TestC03(t *testing.T) {
 		Rule: "four scenario classes: wrapper-conc = 2-4 clients x up to 7 Insert/Update/UpdateOrInsert/Delete/Get/AscendGte/AscendGt/DescendLte/DescendLt (filters all/even/none/odd-payload, limits 0/1/3/100) checked with porcupine; wrapper-seq = up to 60 such ops checked op by op with the structural check; " +
 			"core-seq = up to 80 core ops (all scans incl. ranges, DeleteMin/Max) at degree 2/3/4/8; clones = a base tree cloned 1-3 times (clone of clone), every tree driven by its own task concurrently against its own model, shared 4-node free list; keys dense in [-2, 8..42]; " +
 			"non-trivial = >=2 tasks and >=1 switch (or >=3 ops sequentially); distinct = distinct event-log hash",
+		Probes:      []string{"mode-wrapper-conc", "mode-wrapper-seq", "mode-core-seq", "mode-clones", "porcupine-ok"},
 		Assumptions: []string{"Clone is taken while no task writes the tree being cloned (upstream contract); afterwards every tree is used by one task"},
 	})
 }
